@@ -579,9 +579,21 @@ def check_inverse(ctx, fi, cd, searched, kind):
     else:
         raise AnalysisError('%s: unrecognised comparison in the search test' % fi.qualname)
     final, _ = S.final[0]
-    ctx.ob('sound-side', fi, S.loop, U(final) == sound,
-           'the end assigned while `%s(.) <= %s` holds is `%s`; the function must return it (returns `%s`)'
-           % (cd.name, delta_param, sound, U(final)), construct='result of ' + fi.name)
+    ok_final = U(final) == sound
+    clamp_note = ''
+    if not ok_final and isinstance(final, ast.Call) and U(final.func) in ('min', 'max') and len(final.args) == 2 and not final.keywords \
+            and sound in (U(final.args[0]), U(final.args[1])):
+        # a clamp of the result at the far end of the bracket it was searched in never binds (the sound end stays inside the bracket)
+        other_arg = final.args[1] if U(final.args[0]) == sound else final.args[0]
+        far = S.inits.get(unsound)
+        inward = (U(final.func) == 'min') == (kind == 'rho')          # rho: sound end is the lower one, clamp from above
+        if far is not None and inward and T(other_arg) == T(far):
+            ok_final = True
+        else:
+            clamp_note = '; the clamp `%s` is not the far end `%s` of the searched bracket and can bind' % (U(final), U(far) if far is not None else '?')
+    ctx.ob('sound-side', fi, S.loop, ok_final,
+           'the end assigned while `%s(.) <= %s` holds is `%s`; the function must return it (returns `%s`)%s'
+           % (cd.name, delta_param, sound, U(final), clamp_note), construct='result of ' + fi.name)
     mod = fi.module
 
     def allowed(t):
